@@ -160,6 +160,27 @@ func (g tg) longToken(n int) string {
 	return sb.String()
 }
 
+// damaged returns a text whose encoding is damaged: multi-byte characters cut
+// short (a file truncated or re-coded mid-character). SplitToSize still
+// terminates on it and conserves its bytes; validity of the pieces is only
+// promised for valid input.
+func (g tg) damaged(size int) string {
+	base := g.prose(size, true, true)
+	cuts := []string{"\xe6\x97", "\xf0\x9f\x98", "\xc3", "\xe2\x82", "\xf0\x9f"}
+	var sb strings.Builder
+	sb.WriteString(g.pick(cuts))
+	for _, w := range strings.SplitAfter(base, " ") {
+		sb.WriteString(w)
+		if g.r.Intn(6) == 0 {
+			sb.WriteString(g.pick(cuts))
+			if g.r.Intn(2) == 0 {
+				sb.WriteString(" ")
+			}
+		}
+	}
+	return sb.String()
+}
+
 // text returns (text, kind label).
 func (g tg) text(size int) (string, string) {
 	switch g.r.Intn(14) {
@@ -274,6 +295,13 @@ func genSplit(r *rand.Rand, i int) *wcase {
 		size = 3000 + r.Intn(20000)
 	}
 	t, kind := g.text(size)
+	if i%16 == 7 {
+		t, kind = g.damaged(size), "damaged-utf8"
+		if r.Intn(2) == 0 { // and the smallest limits: no split point ever fits
+			w.Size.Max.Value = 1 + r.Intn(3)
+			w.Size.Target.Value, w.Size.Min.Value = 1, 0
+		}
+	}
 	w.Text = []byte(t)
 	w.Titles = []string{kind}
 	if i%5 == 1 {
